@@ -172,6 +172,11 @@ pub fn run(ctx: &mut Ctx) {
             let docs = batch(&mut rng, 48);
             check_batch(ctx, &docs);
         }
+        if i % 16 == 5 {
+            let (o1, o2) = gen::resplit_objects(&mut rng);
+            check_pair(ctx, &o1, &o2);
+            check_pair(ctx, &Tree::Arr(vec![o2.clone(), o1.clone()]), &Tree::Arr(vec![o1, o2]));
+        }
         if i % 101 == 7 && !ctx.miri {
             // wide documents, as JSONB and as text
             let w = gen::wide_doc(&mut rng);
